@@ -899,6 +899,22 @@ def _():
 ITEMS.append(('o_fsq_index_cast', lambda: G.emit_call_sequence('o_fsq_index_cast', FSQF, 'FSQ.forward', ('self.quantize', 'self.codes_to_indices', 'codes.to', 'codes.type', 'self.quantize(z).to'),
                                                                 'FSQ.forward: codes_to_indices before the cast to the activation dtype')))
 
+# every call of the codebook inside VectorQuantize.forward with the names its three results are bound to: after the in-place optimiser step the module
+# quantizes AGAIN, and the second call must rebind the indices as well as the vectors (Model/Requant.v; seeds C01-i / C17-i kept the first pass's indices)
+@item('o_vq_codebook_calls')
+def _():
+    func = find_func(VQ, 'VectorQuantize.forward')
+    rows = []
+    for n in ast.walk(func):
+        if isinstance(n, ast.Assign) and isinstance(n.value, ast.Call) and G.call_name(n.value) == 'self._codebook':
+            tgt = n.targets[0]
+            names = [ast.unparse(e) for e in tgt.elts] if isinstance(tgt, ast.Tuple) else [ast.unparse(tgt)]
+            rows.append((n.lineno, ', '.join(names)))
+    if not rows:
+        raise GenError('VectorQuantize.forward: no assignment from self._codebook(...)')
+    rows.sort()
+    return G.emit_strings('o_vq_codebook_calls', [r for _, r in rows], 'VectorQuantize.forward: result bindings of every self._codebook(...) call, in source order')
+
 
 # einops patterns (G3)
 for name, fname, qual in (('pat_vq_forward', VQ, 'VectorQuantize.forward'), ('pat_vq_split', VQ, 'VectorQuantize.maybe_split_heads_from_input'),
